@@ -11,6 +11,8 @@ package randdata
 // (`choices` is the local the emitted array literal is joined from)
 //@ func context.codeForEnum
 //@   props C15
+//@   -- the emitted array literal is joined from that list
+//@   callverb fmt.Sprintf "{%s} i := rand.Intn" strings.Join(choices, ", ")
 //@   requires ty != nil && (forall i int :: 0 <= i && i < len(ty.Members) ==> ty.Members[i].Const != nil && is(ty.Members[i].Const, *types.Const))
 //@   modifies *
 //@   ensures forall k int :: 0 <= k && k < len(choices) ==> choices[k] != ""
@@ -29,7 +31,8 @@ package randdata
 //@   modifies *
 //@   ensures len(choix) == len(ty.Members) && len(ty.Members) > 0
 //@   -- the bound handed to rand.Intn in the emitted text is the number of entries
-//@   callarg fmt.Sprintf@2 5 len(choix)
+//@   callverb fmt.Sprintf "i := rand.Intn(%s)" len(choix)
+//@   callverb fmt.Sprintf "{ %s } i := rand.Intn" strings.Join(choix, "")
 //@   loop ty.Members.1 index n
 //@   loop ty.Members.1 invariant len(choix) == n
 
